@@ -1,5 +1,6 @@
 import GtirbVerif.Lemmas.IRBytes
 import GtirbVerif.Lemmas.Splice
+import GtirbVerif.Lemmas.IRBatch
 
 /-!
 # C01 — rewriting edits bytes exactly like editing the assembly listing
@@ -92,7 +93,70 @@ theorem splice_length (block : List Nat) (es : List LEdit) (h : Disjoint block.l
   have := spliceSpec_length block.length block rfl es 0 (Nat.zero_le _) h
   simpa using this
 
+/-- **The loop of `_apply_modifications`, on the IR, for every list of resolved requests of a
+block.**  `IR.applyMods` carries out request after request with `IR.insert` / `IR.delete` on
+the block the previous request returned, at `offset + total_insert_len - block_delta`.  If it
+succeeds on sorted, pairwise disjoint requests, the byte interval of the block holds what
+was in front of the block, then *the listing splice of the block's bytes* - every patch
+exactly once at its offset, in list order, every deleted or replaced range gone - then what
+was behind it; every other interval the module had is untouched.
+
+Hypotheses: the block lies inside the initialized bytes of its interval; block ids in use are
+below the model's id counter (`IdsBelow`: true of every state the harness hands to the
+model, and kept by every operation); the blocks of each patch are new objects when the
+patch is inserted (`NewBlocks`); `Disjoint` is what `resolve_offsets` establishes. -/
+theorem loop_is_listing {ir ir' : IR} {b i : Nat} {blk : Block} {iv : Interval} {ms : List Mod}
+    (h : ir.applyMods blk.off (some b) 0 ms = .ok ir')
+    (hb : ir.block? b = some blk) (hbi : blk.bi = some i) (hiv : ir.interval? i = some iv)
+    (hfit : blk.off + blk.size ≤ iv.bytes.length)
+    (hI : IdsBelow ir) (hnew : NewBlocks blk.off ir (some b) 0 ms)
+    (hd : Disjoint blk.size 0 (ms.map Mod.toLEdit)) :
+    ir'.bytesOf i = some (iv.bytes.take blk.off ++
+        spliceSpec ((iv.bytes.drop blk.off).take blk.size) 0 (ms.map Mod.toLEdit) ++
+        iv.bytes.drop (blk.off + blk.size)) ∧
+    ∀ j, j ≠ i → ir.bytesOf j ≠ none → ir'.bytesOf j = ir.bytesOf j := by
+  have hcur : ir.bytesOf i = some iv.bytes := by unfold IR.bytesOf; rw [hiv]; rfl
+  obtain ⟨r1, r2⟩ := applyMods_bytes blk.off i ms ir ir' (some b) 0 iv.bytes h
+    (fun a ha => by injection ha with ha; subst ha; exact ⟨blk, hb, Or.inl hbi⟩) hI hnew hcur
+  refine ⟨?_, r2⟩
+  rw [r1]
+  have hsplit : iv.bytes = iv.bytes.take blk.off ++ (iv.bytes.drop blk.off).take blk.size ++ iv.bytes.drop (blk.off + blk.size) := by
+    rw [List.append_assoc, ← List.drop_drop, List.take_append_drop, List.take_append_drop]
+  have hl1 : (iv.bytes.take blk.off).length = blk.off := by rw [List.length_take]; omega
+  have hl2 : ((iv.bytes.drop blk.off).take blk.size).length = blk.size := by
+    rw [List.length_take, List.length_drop]; omega
+  have := sequential_is_simultaneous ((iv.bytes.drop blk.off).take blk.size) (iv.bytes.take blk.off)
+    (iv.bytes.drop (blk.off + blk.size)) (ms.map Mod.toLEdit) (by rw [hl2]; exact hd)
+  rw [hl1, ← hsplit] at this
+  rw [this]
+
 /-! ### the hypotheses are satisfiable (non-vacuity) -/
+
+/-- a module with one data block of four bytes behind one filler byte -/
+private def exIR : IR :=
+  { sections := [(0, ".data")],
+    intervals := [{ id := 7, sect := 0, addr := some 0x1000, size := 5, bytes := [0, 1, 2, 3, 4], symExprs := [] }],
+    blocks := [{ id := 1, isCode := false, bi := some 7, off := 1, size := 4 }],
+    order := [(0, [[1]])], next := 2 }
+
+private def exMods : List Mod := [.del 0 1 false, .del 2 1 false]
+
+example : exIR.block? 1 = some { id := 1, isCode := false, bi := some 7, off := 1, size := 4 } := rfl
+example : IdsBelow exIR := by intro k hk; simp [IR.ids, exIR] at hk; subst hk; decide
+example : Disjoint 4 0 (exMods.map Mod.toLEdit) := by simp [Disjoint, exMods, Mod.toLEdit, Mod.off, Mod.len]
+example : NewBlocks 1 exIR (some 1) 0 exMods := by
+  unfold exMods NewBlocks
+  intro ir' r _
+  cases r with
+  | none => simp [NewBlocks]
+  | some a =>
+    unfold NewBlocks
+    split
+    · trivial
+    · intro _ _ _; simp [NewBlocks]
+/-- the loop succeeds on it, and the bytes are the listing's: `1` and `3` are gone -/
+example : ((exIR.applyMods 1 (some 1) 0 exMods).toOption.bind (·.bytesOf 7)) = some [0, 2, 4] := by decide +kernel
+
 
 private def e1 : LEdit := { block := 0, off := 1, del := 0, ins := [9, 9], labels := [], aligns := [], proxy := false, order := 0, tailCode := true, exprs := [], exprSizes := [] }
 private def e2 : LEdit := { e1 with off := 2, del := 2, ins := [7], order := 1 }
